@@ -142,13 +142,76 @@ fn enabled(args: &Args, tag: &str) -> bool {
     if args.opt("findings") == Some("all") {
         return true;
     }
-    for path in [concat!(env!("CARGO_MANIFEST_DIR"), "/../known_findings.json"), "/verif/known_findings.json"] {
+    let default_paths = [concat!(env!("CARGO_MANIFEST_DIR"), "/../known_findings.json"), "/verif/known_findings.json"];
+    let paths: Vec<&str> = match args.opt("known_findings") {
+        Some(p) => vec![p],
+        None => default_paths.to_vec(),
+    };
+    for path in paths {
         if let Ok(text) = std::fs::read_to_string(path) {
-            let open = text.split("\"fixed\"").next().unwrap_or("");
-            return open.contains(&format!("\"tag\": \"{tag}\"")) || open.contains(&format!("\"tag\":\"{tag}\""));
+            return open_findings(&text).iter().any(|entry| {
+                let compact: String = entry.chars().filter(|c| !c.is_whitespace()).collect();
+                compact.contains(&format!("\"tag\":\"{tag}\"")) && compact.contains("\"property\":\"C04\"")
+            });
         }
     }
     false
+}
+
+/// The objects of the "open" array of known_findings.json (as text), found by
+/// bracket matching outside string literals.
+fn open_findings(text: &str) -> Vec<String> {
+    let Some(start) = text.find("\"open\"") else { return vec![] };
+    let rest = &text[start..];
+    let Some(lb) = rest.find('[') else { return vec![] };
+    let mut depth = 0i32;
+    let mut in_str = false;
+    let mut esc = false;
+    let mut objs = vec![];
+    let mut cur = String::new();
+    for c in rest[lb..].chars() {
+        if in_str {
+            cur.push(c);
+            if esc {
+                esc = false;
+            } else if c == '\\' {
+                esc = true;
+            } else if c == '"' {
+                in_str = false;
+            }
+            continue;
+        }
+        match c {
+            '"' => {
+                in_str = true;
+                cur.push(c);
+            }
+            '[' | '{' => {
+                depth += 1;
+                if depth >= 2 {
+                    cur.push(c);
+                }
+            }
+            ']' | '}' => {
+                depth -= 1;
+                if depth >= 1 {
+                    cur.push(c);
+                }
+                if depth == 1 && c == '}' {
+                    objs.push(std::mem::take(&mut cur));
+                }
+                if depth == 0 {
+                    break;
+                }
+            }
+            _ => {
+                if depth >= 2 {
+                    cur.push(c);
+                }
+            }
+        }
+    }
+    objs
 }
 
 // ---------------------------------------------------------------- stream 1
@@ -713,6 +776,78 @@ fn parts_show(parts: &[Part]) -> String {
     render_word(parts, &mut setup, &mut n).0
 }
 
+/// A string the pattern word probably matches (wildcards and bracket
+/// expressions are filled in roughly), so that trims remove something and
+/// case items run.
+fn instantiate(r: &mut Rng, parts: &[Part]) -> String {
+    let mut flat: Vec<(char, bool)> = vec![];
+    for p in parts {
+        match p {
+            Part::Seg(c, q) => flat.push((*c, *q != Q::None)),
+            Part::Var(raw, true) => flat.extend(raw.chars().map(|c| (c, true))),
+            Part::Var(raw, false) => {
+                let mut it = raw.chars();
+                while let Some(c) = it.next() {
+                    if c == '\\' {
+                        if let Some(d) = it.next() {
+                            flat.push((d, true));
+                        }
+                    } else {
+                        flat.push((c, false));
+                    }
+                }
+            }
+        }
+    }
+    let fill = ['a', 'b', 'x', '.', '-', 'z', '0'];
+    let mut out = String::new();
+    let mut i = 0;
+    while i < flat.len() {
+        let (c, quoted) = flat[i];
+        if quoted {
+            out.push(c);
+        } else if c == '*' {
+            for _ in 0..r.below(3) {
+                out.push(*r.pick(&fill));
+            }
+        } else if c == '?' {
+            out.push(*r.pick(&fill));
+        } else if c == '[' {
+            // look for the closing bracket; pick one of the characters in between
+            let mut j = i + 1;
+            let complement = j < flat.len() && !flat[j].1 && (flat[j].0 == '!' || flat[j].0 == '^');
+            if complement {
+                j += 1;
+            }
+            let start = j;
+            let mut close = None;
+            while j < flat.len() {
+                if flat[j] == (']', false) && j > start {
+                    close = Some(j);
+                    break;
+                }
+                j += 1;
+            }
+            match close {
+                Some(k) => {
+                    let inside: Vec<char> = flat[start..k].iter().map(|x| x.0).filter(|c| c.is_alphanumeric()).collect();
+                    if complement || inside.is_empty() {
+                        out.push(*r.pick(&fill));
+                    } else {
+                        out.push(*r.pick(&inside));
+                    }
+                    i = k;
+                }
+                None => out.push('['),
+            }
+        } else {
+            out.push(c);
+        }
+        i += 1;
+    }
+    out
+}
+
 fn subject_for(r: &mut Rng, parts: &[Part]) -> String {
     let mut pool: Vec<char> = vec!['a', 'b', '.', '-', 'x'];
     for p in parts {
@@ -820,7 +955,23 @@ fn main() {
     let std_fill = ['a', 'b', 'c', 'd', 'e', 'f'];
 
     // ---- corpus: patterns that mattered (F2, F3, quirks of the bracket grammar)
-    let corpus: [(&str, bool); 46] = [
+    let corpus: [(&str, bool); 62] = [
+        ("[[.a\\.]b]", true),
+        ("[[.a.\\]]", true),
+        ("[[:alpha\\:]]x]", true),
+        ("[[:alpha:\\]]", true),
+        ("[[=a\\=]]", true),
+        ("[\\[.a.]]", true),
+        ("[[\\.a.]]", true),
+        ("[[.].]a]", false),
+        ("[[...]]", false),
+        ("[[.ab.]-c]", false),
+        ("[a-[.cd.]]", false),
+        ("[[=ab=]-[.cd.]]", false),
+        ("[a-c-e]", false),
+        ("[!a-c]", false),
+        ("[^!a]", false),
+        ("*[!*]*", false),
         ("", false),
         ("a", false),
         ("*", false),
@@ -883,8 +1034,23 @@ fn main() {
                 emit_pat(&mut w, &args, &src, true, &Texts::Enum(alpha, 3), &CONFIGS[..5], "exhaustive");
             }
         }
+        // one symbol longer on the part of the alphabet the bracket grammar is about
+        let syms7: Vec<char> = "a-[]!\\*".chars().collect();
+        for src in strings_of_len(&syms7, maxlen + 1) {
+            let alpha = text_alphabet(&src, 3, &std_fill);
+            emit_pat(&mut w, &args, &src, true, &Texts::Enum(alpha, 3), &CONFIGS[..5], "exhaustive-7");
+        }
+        // every bracket body up to four symbols, closed
+        let bsyms: Vec<char> = "a-][!^.:=\\".chars().collect();
+        for n in 1..=maxlen {
+            for body in strings_of_len(&bsyms, n) {
+                let src = format!("[{body}]");
+                let alpha = text_alphabet(&src, 4, &std_fill);
+                emit_pat(&mut w, &args, &src, true, &Texts::Enum(alpha, 2), &CONFIGS[..5], "exhaustive-brackets");
+            }
+        }
     } else {
-        for k in 0..150 {
+        for k in 0..400 {
             let mut r = rng.fork(1000 + k);
             let n = 1 + r.below(6);
             let src: String = (0..n).map(|_| *r.pick(&syms)).collect();
@@ -894,7 +1060,7 @@ fn main() {
     }
 
     // ---- random structured patterns with regex-special and non-ASCII characters
-    let nrand = args.scale(250, 6000);
+    let nrand = args.scale(600, 8000);
     for k in 0..nrand {
         let mut r = rng.fork(50_000 + k as u64);
         let src = random_pattern(&mut r);
@@ -913,20 +1079,30 @@ fn main() {
     let all_chars: Vec<char> = (1u8..128).map(|b| b as char).chain(['é', 'ß', 'あ', '😀', '\u{a0}', '\u{2028}']).collect();
     let step = if args.thorough() { 1 } else { 4 };
     for (k, c) in all_chars.iter().enumerate() {
-        if k % step != (args.seed as usize) % step {
+        // every ASCII punctuation character in every run; a quarter of the rest in quick runs
+        if !c.is_ascii_punctuation() && k % step != (args.seed as usize) % step {
             continue;
         }
         let other = if *c == 'a' { 'b' } else { 'a' };
-        for form in 0..5 {
+        for form in 0..8 {
             let (src, esc) = match form {
                 0 => (format!("{c}?"), false),
                 1 => (format!("[{c}]"), false),
                 2 => (format!("[!{c}]{c}"), false),
                 3 => (format!("[{other}{c}-{c}]*"), false),
-                _ => (format!("\\{c}[[.{c}.][={other}=]]"), true),
+                4 => (format!("\\{c}[[.{c}.][={other}=]]"), true),
+                5 => (format!("[{other}{c}{c}]"), false),
+                6 => (format!("*{c}{c}"), false),
+                _ => (format!("[{c}-{c}]{c}{other}"), false),
             };
             emit_pat(&mut w, &args, &src, esc, &Texts::Enum(vec![*c, other, '\\'], 2), &CONFIGS[..5], "every-char");
         }
+    }
+
+    // ---- the leading-period rule (used by pathname expansion)
+    let period_configs = [cfg(true, true, true, false), cfg(false, false, true, true), cfg(true, false, true, false), cfg(false, true, true, true)];
+    for (src, esc) in [(".a", false), ("?a", false), ("*a", false), ("[.]a", false), ("\\.a", true), ("*", false), (".*", false), ("?", false), ("[!a]*", false), ("", false), (".", false), ("a", false)] {
+        emit_pat(&mut w, &args, src, esc, &Texts::Enum(vec!['.', 'a'], 3), &period_configs, "period");
     }
 
     // ---- the shell: case and the four trim forms
@@ -960,7 +1136,7 @@ fn main() {
         emit_trim(&mut w, &args, v, &[Part::Var(p.to_string(), false)]);
         emit_trim(&mut w, &args, v, &[Part::Var(p.to_string(), true)]);
     }
-    let nshell = args.scale(120, 2500);
+    let nshell = args.scale(300, 3000);
     for k in 0..nshell {
         let mut r = rng.fork(900_000 + k as u64);
         // case
@@ -981,11 +1157,22 @@ fn main() {
         if r.chance(1, 3) {
             items.push((vec![seg_str("*")], 0));
         }
-        let subject = subject_for(&mut r, &all_parts);
+        let subject = if r.chance(1, 2) {
+            let (pats, _) = &items[r.below(items.len())];
+            let k = r.below(pats.len());
+            instantiate(&mut r, &pats[k])
+        } else {
+            subject_for(&mut r, &all_parts)
+        };
         emit_case(&mut w, &args, &subject, &items);
-        // trim
+        // trim: a value that starts and / or ends with something the pattern matches
         let parts = random_parts(&mut r);
-        let value = subject_for(&mut r, &parts);
+        let value = match r.below(4) {
+            0 => subject_for(&mut r, &parts),
+            1 => format!("{}{}", instantiate(&mut r, &parts), subject_for(&mut r, &parts)),
+            2 => format!("{}{}", subject_for(&mut r, &parts), instantiate(&mut r, &parts)),
+            _ => format!("{}{}{}", instantiate(&mut r, &parts), subject_for(&mut r, &parts), instantiate(&mut r, &parts)),
+        };
         let _ = parts_show(&parts);
         emit_trim(&mut w, &args, &value, &parts);
     }
